@@ -1,3 +1,4 @@
+import WS.Lemmas.PreparedSend
 import WS.Model.Sched
 import WS.Model.Writer
 import WS.Lemmas.Writer
@@ -128,6 +129,15 @@ theorem seq_requests_fail (s : W) (h : s.writeErr.isSome) :
     and the close frame as the whole wire -/
 example : (writeControl (newW true 16 false false) 8 [3, 232] 0).2.writeErr = some .closeSent ∧
     (writeControl (newW true 16 false false) 8 [3, 232] 0).2.wire = [136, 2, 3, 232] := by decide
+
+open WS.PreparedSend in
+/-- a message writer that was open when the close frame went out fails no later than its Close (so the
+    message is never reported as sent): with the sticky error set, Close on any handle — live, stale,
+    compressed, bogus — returns an error -/
+theorem open_writer_fails_at_close (s : W) (he : s.writeErr.isSome) (h : Nat) (dn : List Bytes) (full : Bytes) :
+    (hClose s h dn full).1.isSome := by
+  first | exact PreparedSend.close_after_close_fails .. | (apply PreparedSend.close_after_close_fails <;> assumption)
+
 
 /-! ### non-vacuity -/
 section NonVacuity
